@@ -448,6 +448,8 @@ def cryptosign(col, seed, n, only=None):
     pub = Ed25519PrivateKey.from_private_bytes(bytes(range(32))).public_key()
     chal = hashlib.sha256(b"c19-%d" % seed).digest()
     sig_hex = _result_of(key.sign_challenge(Challenge("cryptosign", {"challenge": chal.hex()})))
+    if not isinstance(sig_hex, str) or len(sig_hex) != 192:
+        raise Violation("C19|cryptosign|signature-format", "sign_challenge() resolved to %r" % (sig_hex[:16] if hasattr(sig_hex, "__getitem__") else sig_hex,), {"check": "flip", "bit": 0})
     sig = bytes.fromhex(sig_hex[:128])
     for bit in range(512):
         bad = bytearray(sig)
